@@ -32,8 +32,8 @@ static void on_fire(uv_timer_t* h, int tok) {
   uint64_t d = at + req; if (d < req) d = UINT64_MAX;
   (void) due;
   printf("f%d,%d,%" PRIu64 ",%" PRIu64 ",%" PRIu64 ",%" PRIu64 ",%" PRIu64 " ", i, tok, uv_now(&loop), d, g_seq[i], at, req);
-  printf("e%" PRIu64 ",%" PRIu64 ",%" PRIu64 ",%d ", g_urep[i], uv_timer_get_repeat(h), uv_timer_get_due_in(h),
-         uv_is_active((uv_handle_t*) h) ? 1 : 0);
+  printf("e%" PRIu64 ",%" PRIu64 ",%" PRIu64 ",%d,%d ", g_urep[i], uv_timer_get_repeat(h), uv_timer_get_due_in(h),
+         uv_is_active((uv_handle_t*) h) ? 1 : 0, uv_is_closing((uv_handle_t*) h) ? 1 : 0);
   if (uv_timer_get_repeat(h) != 0 && uv_is_active((uv_handle_t*) h)) {   /* uv_timer_again re-armed it before the callback */
     g_at[i] = uv_now(&loop); g_req[i] = uv_timer_get_repeat(h); g_seq[i] = arm_counter++;
   }
